@@ -41,6 +41,22 @@ type Case struct {
 	// wherever gy is 0 (radial): no interval is needed there, so offsets that
 	// land exactly on 0 or 1 are inside [0,1].
 	Dyadic bool `json:"dyadic,omitempty"`
+	// Portions (level 1): the Gradient is not built by Init but by hand from its exported fields,
+	// its ranges accumulated with AppendRanges in several calls of these many stops each (the
+	// documented continuation form; the first portion has at least two stops).
+	Portions []int `json:"portions,omitempty"`
+	// Bases (level 2): CBASE and NBASE of the register block (nil: 10 and 10); blocks may wrap past 63.
+	Bases *[2]uint8 `json:"bases,omitempty"`
+	// Second (level 2): after the first path one register of the block is rewritten and a second
+	// path is filled with the same gradient value; the pixels are taken from that second path.
+	Second *Second `json:"second,omitempty"`
+}
+
+type Second struct {
+	Stop  int    `json:"stop"`  // index of the stop whose colour is replaced, or -1
+	Color string `json:"color"` // its new colour
+	// ShiftC: added to the matrix entry c (the x translation) when Stop is -1; a multiple of 1/4
+	ShiftC float64 `json:"shift_c,omitempty"`
 }
 
 func parseColor(s string) color.RGBA {
@@ -79,7 +95,17 @@ func checkGradient(c Case) error {
 			g.Init(render.Shape(1-b2i(c.Radial)), render.Spread((c.Spread+1)&3), render.Aff3{1, 2, 3, 4, 5, 6}, prev)
 			g.At(3, 4)
 		}
-		if !g.Init(render.Shape(b2i(c.Radial)), render.Spread(c.Spread), render.Aff3(c.Matrix), rs) {
+		if len(c.Portions) > 0 {
+			g = render.Gradient{Shape: render.Shape(b2i(c.Radial)), Spread: render.Spread(c.Spread), Pix2Grad: render.Aff3(c.Matrix), First: rs[0].RGBA64, Last: rs[len(rs)-1].RGBA64}
+			k := 0
+			for _, n := range c.Portions {
+				g.Ranges = render.AppendRanges(g.Ranges, rs[k:k+n])
+				k += n
+			}
+			if k != len(rs) || len(g.Ranges) != len(rs)-1 {
+				return harness.Violatef("c15/append-ranges", "AppendRanges in portions %v of %d stops gives %d ranges, expected %d", c.Portions, len(rs), len(g.Ranges), len(rs)-1)
+			}
+		} else if !g.Init(render.Shape(b2i(c.Radial)), render.Spread(c.Spread), render.Aff3(c.Matrix), rs) {
 			return harness.Violatef("c15/init", "Gradient.Init rejects %d valid stops", len(rs))
 		}
 		at = g.At
@@ -97,8 +123,12 @@ func checkGradient(c Case) error {
 		z.SetRasterizer(rr, rect)
 		z.Reset(gen.VB(vb), ivg.DefaultPalette)
 		n := len(c.Stops)
-		z.SetCSel(10)
-		z.SetNSel(10)
+		cb, nb := uint8(10), uint8(10)
+		if c.Bases != nil {
+			cb, nb = c.Bases[0]&63, c.Bases[1]&63
+		}
+		z.SetCSel(cb)
+		z.SetNSel(nb)
 		for i := 0; i < 6; i++ {
 			z.SetNReg(uint8(6-i), false, float32(c.Matrix[i]))
 		}
@@ -106,13 +136,30 @@ func checkGradient(c Case) error {
 			z.SetCReg(0, true, ivg.RGBAColor(parseColor(s.Color)))
 			z.SetNReg(0, true, float32(s.Offset))
 		}
-		z.SetCSel(9) // 58 stops occupy CREG[10..63,0..3]
-		z.SetCReg(0, false, ivg.RGBAColor(spec.EncodeGradientBits(spec.GradientBits{NStops: uint8(n), CBase: 10, NBase: 10, Spread: c.Spread, Radial: c.Radial})))
-		z.StartPath(0, vb[0], vb[1])
-		z.AbsLineTo(vb[2], vb[1])
-		z.AbsLineTo(vb[2], vb[3])
-		z.AbsLineTo(vb[0], vb[3])
-		z.ClosePathEndPath()
+		z.SetCSel(cb - 1) // the register just below the block: 58 stops leave six free
+		z.SetCReg(0, false, ivg.RGBAColor(spec.EncodeGradientBits(spec.GradientBits{NStops: uint8(n), CBase: cb, NBase: nb, Spread: c.Spread, Radial: c.Radial})))
+		fillBox := func() {
+			z.StartPath(0, vb[0], vb[1])
+			z.AbsLineTo(vb[2], vb[1])
+			z.AbsLineTo(vb[2], vb[3])
+			z.AbsLineTo(vb[0], vb[3])
+			z.ClosePathEndPath()
+		}
+		fillBox()
+		if sec := c.Second; sec != nil {
+			if sec.Stop >= 0 && sec.Stop < n {
+				z.SetCSel(cb + uint8(sec.Stop))
+				z.SetCReg(0, false, ivg.RGBAColor(parseColor(sec.Color)))
+				col := parseColor(sec.Color)
+				stops16[sec.Stop] = spec.Stop16{Offset: stops16[sec.Stop].Offset, R: float64(col.R) * 257, G: float64(col.G) * 257, B: float64(col.B) * 257, A: float64(col.A) * 257}
+			} else {
+				c.Matrix[2] = float64(float32(c.Matrix[2] + sec.ShiftC))
+				z.SetNSel(nb - 4)
+				z.SetNReg(0, false, float32(c.Matrix[2]))
+			}
+			z.SetCSel(cb - 1)
+			fillBox()
+		}
 		if len(rr.Calls) == 0 || rr.Calls[len(rr.Calls)-1].K != rast.Draw || rr.Calls[len(rr.Calls)-1].P.Kind != "gradient" {
 			return harness.Violatef("c15/not-drawn", "a path filled with a valid %d-stop gradient was not drawn with a gradient paint (%d rasteriser calls)", n, len(rr.Calls))
 		}
@@ -207,7 +254,7 @@ func b2i(b bool) int {
 	return 0
 }
 
-var subGrad = harness.Define("gradient", "gradients (2-58 strictly increasing stops on exact grids, premultiplied colours incl. transparent, four spreads, two shapes, dyadic or general matrices) evaluated at pixels constructed to hit interior points, exact stop offsets, exact odd/even/negative integers, far-out offsets and offsets of 2^54..2^100 under astronomically steep matrices, at render.Gradient.At and end to end through the Renderer (paint captured at Draw): colour within 1+2*slope*delta of the premultiplied piece-wise linear interpolation at the spread-mapped offset (interval handling at discontinuities), valid premultiplied; non-trivial = an offset outside [0,1] or exactly on a stop/integer", checkGradient)
+var subGrad = harness.Define("gradient", "gradients (2-58 strictly increasing stops on exact grids, premultiplied colours incl. transparent, four spreads, two shapes, dyadic or general matrices) evaluated at pixels constructed to hit interior points, exact stop offsets, exact odd/even/negative integers, far-out offsets and offsets of 2^54..2^100 under astronomically steep matrices, at render.Gradient.At (built by Init, also on a reused object, or by hand with AppendRanges in portions) and end to end through the Renderer (paint captured at Draw; register blocks at any CBASE/NBASE incl. wrapping ones; also the paint of a second path after one register of the block was rewritten): colour within 1+2*slope*delta of the premultiplied piece-wise linear interpolation at the spread-mapped offset (interval handling at discontinuities), valid premultiplied; non-trivial = an offset outside [0,1] or exactly on a stop/integer", checkGradient)
 
 func pow2(t *rapid.T, label string, lo, hi int) float64 {
 	v := math.Ldexp(1, rapid.IntRange(lo, hi).Draw(t, label))
@@ -357,6 +404,44 @@ func genCase(t *rapid.T) (Case, []string) {
 		c.Matrix[5] = float64(float32(rapid.Float64Range(-3, 3).Draw(t, "f")))
 	}
 	c.Dyadic = dyadic && exact && !inexactTarget
+	if n := len(c.Stops); !c.EndToEnd {
+		if n >= 3 && rapid.IntRange(0, 2).Draw(t, "portions") == 0 {
+			c.Portions = []int{rapid.IntRange(2, n-1).Draw(t, "portion0")}
+			for left := n - c.Portions[0]; left > 0; {
+				k := rapid.IntRange(1, 3).Draw(t, "portion")
+				if k > left {
+					k = left
+				}
+				c.Portions = append(c.Portions, k)
+				left -= k
+			}
+			labels = append(labels, "ranges-accumulated-with-AppendRanges-in-portions")
+		}
+	} else {
+		if rapid.Bool().Draw(t, "bases") {
+			base := func(l string) uint8 {
+				if rapid.Bool().Draw(t, l+".wrap") {
+					return uint8(64 - rapid.IntRange(1, n-1).Draw(t, l+".before63"))
+				}
+				return uint8(rapid.IntRange(0, 63).Draw(t, l))
+			}
+			c.Bases = &[2]uint8{base("cbase"), base("nbase")}
+			if int(c.Bases[0])+n > 64 || int(c.Bases[1])+n > 64 || c.Bases[1] < 6 {
+				labels = append(labels, "register-block-wraps-past-63")
+			}
+		}
+		if rapid.Bool().Draw(t, "second") {
+			sec := &Second{Stop: -1}
+			if rapid.IntRange(0, 3).Draw(t, "second.what") != 0 {
+				sec.Stop = rapid.IntRange(0, n-1).Draw(t, "second.stop")
+				sec.Color = fmtColor(gen.PremulColor(t, "second.col"))
+			} else {
+				sec.ShiftC = float64(rapid.SampledFrom([]int{-8, -4, -2, -1, 1, 2, 3, 4, 8}).Draw(t, "second.shift")) / 4
+			}
+			c.Second = sec
+			labels = append(labels, "second-path-after-one-register-of-the-block-was-rewritten")
+		}
+	}
 	for i := 0; i < npix; i++ {
 		c.Pixels = append(c.Pixels, [2]int{rapid.IntRange(-2000, 2000).Draw(t, "px"), rapid.IntRange(-2000, 2000).Draw(t, "py")})
 	}
